@@ -19,7 +19,7 @@ import numpy as np
 from ..core import Streams, Violation, import_pyprism, np_rng, canon
 from .. import sysgen, simroot, oracles, simdisk
 from ..numerics import RefGrid
-from .base import BaseWorld, lib
+from .base import BaseWorld, lib, fresh_key
 from . import c12
 
 TOL = 1e-8
@@ -164,6 +164,9 @@ class World(BaseWorld):
                 prs = prs[1:]
             for (a, b) in prs:
                 spec = target['pairs'][sysgen.pkey(a, b)][what]
+                if what == 'potential' and rc.random() < 0.15:
+                    spec = copy.deepcopy(spec)
+                    spec['kw']['sigma'] = rc.choice([0.8, 0.9, 1.0, 1.1])
                 if what == 'omega' and spec['cls'] == 'FromArray':
                     spec = copy.deepcopy(spec)
                     spec['kw']['grid'] = list(gdom)
@@ -243,6 +246,9 @@ class World(BaseWorld):
             a, b = ro.choice(sysgen.pairs(types))
             if k == 'potential':
                 spec = sysgen.gen_potential(ro)
+                if ro.random() < 0.3:
+                    # a potential that carries its own length scale (the closure still gets the pair's contact distance)
+                    spec['kw']['sigma'] = ro.choice([0.8, 0.9, 1.0, 1.1])
             elif k == 'closure':
                 spec = sysgen.gen_closure(ro, None)
             else:
@@ -628,12 +634,12 @@ class World(BaseWorld):
                 edits_since_create[0] += 1
                 model_check_domain(step, 'edit_domain')
             elif name == 'set_density':
-                lib('density[]=', system.density.__setitem__, op['types'], op['value'])
+                lib('density[]=', system.density.__setitem__, fresh_key(op['types']), op['value'])
                 for t in listify(op['types']):
                     rec['density'][t] = float(op['value'])
                 edits_since_create[0] += 1
             elif name == 'set_diameter':
-                lib('diameter[]=', system.diameter.__setitem__, op['types'], op['value'])
+                lib('diameter[]=', system.diameter.__setitem__, fresh_key(op['types']), op['value'])
                 for t in listify(op['types']):
                     rec['diameter'][t] = float(op['value'])
                 edits_since_create[0] += 1
@@ -644,7 +650,7 @@ class World(BaseWorld):
             elif name in ('set_potential', 'set_closure', 'set_omega'):
                 what = name[4:]
                 obj = lib(what + '()', self.make_obj, pp, what, op['spec'], disk)
-                lib('%s[]=' % what, getattr(system, what).__setitem__, (op['k1'], op['k2']), obj)
+                lib('%s[]=' % what, getattr(system, what).__setitem__, (fresh_key(op['k1']), fresh_key(op['k2'])), obj)
                 for a in listify(op['k1']):
                     for b in listify(op['k2']):
                         rec['pairs'][pairkey(types, a, b)][what] = copy.deepcopy(op['spec'])
